@@ -165,8 +165,11 @@ func init() {
 			{Module: "MC_C04", Frac: frac(0.5, 1)}, {Module: "MC_C08", Frac: frac(0.2, 1)}, {Module: "MC_C09"},
 			{Module: "MC_C06", ExtraCfg: maxStr(2, 3), Frac: frac(0.3, 1)},
 			{Module: "MC_C07", ExtraCfg: tierCfg, Frac: frac(0.1, 0.5)}, {Module: "MC_C05", Frac: frac(0.01, 0.1)},
+			// property names with punctuation both decoders accept (percent signs, braces, colons): the JSON and the YAML
+			// method are rendered from the same validator objects, one after the other
+			{Module: "MC_C14S", Keep: func(u *rt.Unit) bool { ok, _ := u.Raw["tagok"].(bool); return u.Str("fam") == "tagchars" && ok }},
 		},
-		Rule: "programs = units of the C02, C04-C09 families generated with --extra-imports; every document that is valid or whose only faults are required / bound / length / pattern / enum violations (no value of a wrong JSON type) is decoded through UnmarshalJSON, through UnmarshalYAML given the JSON text as flow YAML, and through UnmarshalYAML given block-style YAML; verdicts and reflective dumps of the destination must agree. distinct_nontrivial = distinct in-scope (unit, document) pairs"}
+		Rule: "programs = units of the C02, C04-C09 families (and C14's property names with punctuation) generated with --extra-imports; every document that is valid or whose only faults are required / bound / length / pattern / enum violations (no value of a wrong JSON type) is decoded through UnmarshalJSON, through UnmarshalYAML given the JSON text as flow YAML, and through UnmarshalYAML given block-style YAML; verdicts and reflective dumps of the destination must agree. distinct_nontrivial = distinct in-scope (unit, document) pairs"}
 }
 
 func init() {
